@@ -17,7 +17,7 @@ type GenOpts struct {
 	MaxInput   int
 	NoRefs     bool
 	Trims      bool
-	RefTrims   bool // trimming the reference semantics can follow: restricted operands (see genRefTrim)
+	RefTrims   bool  // trimming the reference semantics can follow: restricted operands (see genRefTrim)
 	Skeleton   bool  // recursion skeleton first (direct / hidden / indirect ring)
 	LRFree     bool  // repair left recursion away (C03)
 	Share      bool  // bias towards several references to one rule at one position (cache hits)
@@ -497,7 +497,13 @@ func shareTransform(t *rapid.T, g *Grammar, o GenOpts) {
 		return tm(o.Alphabet[rapid.IntRange(0, len(o.Alphabet)-1).Draw(t, "sch")])
 	}
 	small := func() *Expr {
-		switch rapid.IntRange(0, 6).Draw(t, "small") {
+		switch rapid.IntRange(0, 9).Draw(t, "small") {
+		case 7: // succeeds on a prefix and records the failure of the next element further right
+			return ex(KSeqTry, term(), term(), term())
+		case 8:
+			return ex(KMany, ex(KSeqOf, term(), term()))
+		case 9:
+			return ex(KSepBy1, term(), ex(KSeqOf, term(), term()))
 		case 0:
 			return term()
 		case 1:
@@ -524,16 +530,24 @@ func shareTransform(t *rapid.T, g *Grammar, o GenOpts) {
 	host := rapid.IntRange(0, s-1).Draw(t, "host")
 	var alts []*Expr
 	m := rapid.IntRange(2, 3).Draw(t, "uses")
+	use := func() *Expr {
+		// with SuppressError in play one use in three is silenced: what the shared rule records in
+		// the context there must not be lost for the other uses
+		if o.Suppress && rapid.IntRange(0, 2).Draw(t, "silenced") == 0 {
+			return ex(KSuppress, rf(s))
+		}
+		return rf(s)
+	}
 	for i := 0; i < m; i++ {
 		switch rapid.IntRange(0, 3).Draw(t, "use") {
 		case 0:
-			alts = append(alts, ex(KSeqOf, rf(s), term()))
+			alts = append(alts, ex(KSeqOf, use(), term()))
 		case 1:
-			alts = append(alts, ex(KOpt, rf(s)))
+			alts = append(alts, ex(KOpt, use()))
 		case 2:
-			alts = append(alts, ex(KSeqOf, rf(s), small()))
+			alts = append(alts, ex(KSeqOf, use(), small()))
 		default:
-			alts = append(alts, rf(s))
+			alts = append(alts, use())
 		}
 	}
 	alts = append(alts, g.Rules[host])
